@@ -30,7 +30,7 @@ def proof(prop, name, strength="U", contracts=None, loops=None, covers=(), shape
           tiers=("quick", "thorough"), expect_fail=()):
     """Register a proof obligation.  strength: U unbounded / S shape-bounded / B bounded stand-in."""
     def deco(fn):
-        po = PO(fn, prop, name, strength, contracts or {}, loops or {}, tuple(covers), shapes, config or {}, note, tuple(expect_fail))
+        po = PO(fn, prop, name, strength, contracts or {}, loops or {}, covers if callable(covers) else tuple(covers), shapes, config or {}, note, tuple(expect_fail))
         po.tiers = tiers
         REGISTRY.setdefault(prop, []).append(po)
         fn.__po__ = po
